@@ -2204,6 +2204,10 @@ impl LineBuf {
 				if self.grapheme_before(insert_idx).is_some_and(|gr| gr != "\n") {
 					line = format!("\n{}", line);
 				}
+				// A line yanked from the unterminated end of a buffer needs its terminator when text follows
+				if byte_pos < self.buffer.len() && !line.ends_with('\n') {
+					line.push('\n');
+				}
 				self.buffer.insert_str(byte_pos, &line);
 				self.update_graphemes();
 			}
